@@ -51,6 +51,29 @@ static bool utf16_is_second_surrogate(uint16_t x) { return 0xDC00 <= x && x <= 0
 static uint32_t utf16_combine_surrogate(uint16_t w1, uint16_t w2) { return (((uint32_t)(w1 & 0x3FF) << 10) | (w2 & 0x3FF)) + 0x10000; }
 '''
 
+PRE += r'''
+/* ---- tokenizer: next(), check(), read_4_digits() over the same ghost input stream */
+enum { tock_eof = 255, tock_err, tock_str, tock_number, tock_true, tock_false, tock_null };
+int g_line; size_t g_k2, g_chk0, g_s0off; int g_ps_calls, g_pn_calls; bool g_ps_res, g_pn_res; size_t g_ps_pos, g_pn_pos;
+static void is_sungetc(void) { __CPROVER_assert(g_is_pos > 0, "sungetc after a successful sbumpc"); g_is_pos--; }
+/* parse_string()/parse_number() seen from next(): recorders (parse_string has its own job) that consume at least the byte that was put back */
+static bool tk_parse_string(void) { g_ps_calls++; g_ps_pos = g_is_pos; size_t k; __CPROVER_assume(k >= 1 && k <= g_is_n - g_is_pos); g_is_pos += k; return g_ps_res; }
+static bool tk_parse_number(void) { g_pn_calls++; g_pn_pos = g_is_pos; size_t k; __CPROVER_assume(k >= 1 && k <= g_is_n - g_is_pos); g_is_pos += k; return g_pn_res; }
+/* is_.get(buf,5): up to 4 characters, stops before a newline or at the end of input, NUL-terminates; fails when nothing was extracted */
+static bool is_get4(char *buf)
+{
+  size_t k = 0;
+  if(g_is_pos < g_is_n && g_is_p[g_is_pos] != '\n') { buf[0] = g_is_p[g_is_pos]; g_is_pos++; k = 1;
+    if(g_is_pos < g_is_n && g_is_p[g_is_pos] != '\n') { buf[1] = g_is_p[g_is_pos]; g_is_pos++; k = 2;
+      if(g_is_pos < g_is_n && g_is_p[g_is_pos] != '\n') { buf[2] = g_is_p[g_is_pos]; g_is_pos++; k = 3;
+        if(g_is_pos < g_is_n && g_is_p[g_is_pos] != '\n') { buf[3] = g_is_p[g_is_pos]; g_is_pos++; k = 4; } } } }
+  buf[k] = 0; return k > 0;
+}
+#define HEXV(c) ((c) >= '0' && (c) <= '9' ? (c) - '0' : (c) >= 'a' && (c) <= 'f' ? (c) - 'a' + 10 : (c) - 'A' + 10)
+#define ISHEX(c) (((c) >= '0' && (c) <= '9') || ((c) >= 'a' && (c) <= 'f') || ((c) >= 'A' && (c) <= 'F'))
+/* sscanf(buf,"%x",&v) on four hexadecimal digits (C99 7.19.6.2) */
+static void sscanf_x4(char const *buf, unsigned *v) { __CPROVER_assert(ISHEX(buf[0]) && ISHEX(buf[1]) && ISHEX(buf[2]) && ISHEX(buf[3]) && buf[4] == 0, "sscanf %x is given exactly four hexadecimal digits"); *v = (unsigned)(HEXV(buf[0]) << 12 | HEXV(buf[1]) << 8 | HEXV(buf[2]) << 4 | HEXV(buf[3])); }
+'''
 functions = [
     dict(cname='json_generic_append', file=J, locate=lit('void generic_append(char const *begin,char const *end,Appender &a)'), sig='void json_generic_append(char const *begin, char const *end)',
          hoist=[r'static char const tohex\[\]="[^"]*";'],
@@ -82,6 +105,57 @@ __CPROVER_ensures(__CPROVER_return_value ==> (g_str_cleared && !g_bad_raw && !g_
 /* terminates on every input and never reads past the end of the stream */
 __CPROVER_ensures(g_is_pos <= g_is_n)
 '''),
+    dict(cname='json_check', file=J, locate=lit('bool check(char const *s)'), sig='bool json_check(char const *s)',
+         rewrites=[(r'std::streambuf \*buf = is_\.rdbuf\(\);', '', 1), (r'buf->sbumpc\(\)', 'is_sbumpc()', 1), (r'std::char_traits<char>::to_int_type\(\*s\)', '(int)(unsigned char)(*s)', 1)],
+         body_ghost='g_chk0 = g_is_pos; g_s0off = OFF(s);',
+         loops={0: r'''__CPROVER_assigns(s, g_is_pos)
+__CPROVER_loop_invariant(SAME(s, __CPROVER_loop_entry(s)) && OFF(s) >= OFF(__CPROVER_loop_entry(s)) && OFF(s) - OFF(__CPROVER_loop_entry(s)) <= ((__CPROVER_loop_entry(s))[1] == 0 ? 1 : (__CPROVER_loop_entry(s))[2] == 0 ? 2 : (__CPROVER_loop_entry(s))[3] == 0 ? 3 : 4) && g_s0off == OFF(__CPROVER_loop_entry(s)) && g_is_pos <= g_is_n && g_chk0 <= g_is_pos &&
+      g_is_pos - g_chk0 == OFF(s) - OFF(__CPROVER_loop_entry(s)) && (g_k2 < g_is_pos - g_chk0 ==> g_is_p[g_chk0 + g_k2] == (__CPROVER_loop_entry(s))[g_k2]) &&
+      (__CPROVER_loop_entry(s))[0] != 0 && ((__CPROVER_loop_entry(s))[1] == 0 || ((__CPROVER_loop_entry(s))[2] == 0 || ((__CPROVER_loop_entry(s))[3] == 0 || (__CPROVER_loop_entry(s))[4] == 0))))
+__CPROVER_decreases(5 - (OFF(s) - g_s0off))'''},
+         contract=r'''
+/* s is one of the literal tails "rue", "ull", "alse", "/" (1..4 characters) */
+__CPROVER_requires(g_is_n <= BUF_CAP && __CPROVER_r_ok(g_is_p, g_is_n) && g_is_pos <= g_is_n && __CPROVER_r_ok(s, 2) && s[0] != 0 && (s[1] == 0 || (__CPROVER_r_ok(s, 3) && (s[2] == 0 || (__CPROVER_r_ok(s, 4) && (s[3] == 0 || (__CPROVER_r_ok(s, 5) && s[4] == 0)))))))
+__CPROVER_assigns(g_is_pos, g_chk0, g_s0off)
+/* true exactly when the next characters of the input spell s; then exactly those characters are consumed */
+__CPROVER_ensures(g_chk0 == __CPROVER_old(g_is_pos) && g_is_pos >= g_chk0 && g_is_pos <= g_is_n && g_is_pos - g_chk0 <= 5 &&
+                  (__CPROVER_return_value ==> (g_is_pos - g_chk0 == (s[1] == 0 ? 1 : s[2] == 0 ? 2 : s[3] == 0 ? 3 : 4) && (g_k2 < g_is_pos - g_chk0 ==> g_is_p[g_chk0 + g_k2] == s[g_k2]))))
+'''),
+    dict(cname='json_read_4_digits', file=J, locate=lit('bool read_4_digits(uint16_t &x)'), sig='bool json_read_4_digits(uint16_t *x)', refs=['x'],
+         rewrites=[(r'char buf\[\w\]=\{\w\};', 'char buf[5]={0};', 1), (r'is_\.get\(buf,\w\)', 'is_get4(buf)', 1), (r'sscanf\(buf,"%x",&v\)', 'sscanf_x4(buf,&v)', 1)],
+         contract=r'''
+__CPROVER_requires(g_is_n <= BUF_CAP && __CPROVER_r_ok(g_is_p, g_is_n) && g_is_pos <= g_is_n && __CPROVER_w_ok(x, sizeof(*x)))
+__CPROVER_assigns(*x, g_is_pos)
+/* success exactly on four hexadecimal digits, which are consumed and whose value is returned (what \uXXXX denotes) */
+__CPROVER_ensures(__CPROVER_return_value ==> (g_is_pos == __CPROVER_old(g_is_pos) + 4 && ISHEX(g_is_p[g_is_pos - 4]) && ISHEX(g_is_p[g_is_pos - 3]) && ISHEX(g_is_p[g_is_pos - 2]) && ISHEX(g_is_p[g_is_pos - 1]) &&
+                  *x == (uint16_t)(HEXV(g_is_p[g_is_pos - 4]) << 12 | HEXV(g_is_p[g_is_pos - 3]) << 8 | HEXV(g_is_p[g_is_pos - 2]) << 4 | HEXV(g_is_p[g_is_pos - 1]))))
+'''),
+    dict(cname='json_next', file=J, locate=lit('int next()'), sig='int json_next(void)', rename={'check': 'json_check', 'parse_string': 'tk_parse_string', 'parse_number': 'tk_parse_number'},
+         rewrites=[(r'std::streambuf \*buf = is_\.rdbuf\(\);', '', 1), (r'buf->sbumpc\(\)', 'is_sbumpc()', 2), (r'buf->sungetc\(\)', 'is_sungetc()', 2), (r'\bline\+\+', 'g_line++', 1)],
+         loops={0: r'''__CPROVER_assigns(g_is_pos, g_line, g_chk0, g_s0off, g_ps_calls, g_pn_calls, g_ps_pos, g_pn_pos)
+__CPROVER_loop_invariant(g_is_pos <= g_is_n && g_is_pos >= __CPROVER_loop_entry(g_is_pos) && g_line >= __CPROVER_loop_entry(g_line) && g_line <= 2000001 && g_line - __CPROVER_loop_entry(g_line) <= (int)(g_is_pos - __CPROVER_loop_entry(g_is_pos)) && g_ps_calls == 0 && g_pn_calls == 0)
+__CPROVER_decreases(g_is_n - g_is_pos)''',
+                1: r'''__CPROVER_assigns(c, g_is_pos)
+__CPROVER_loop_invariant(g_is_pos <= g_is_n && g_is_pos >= __CPROVER_loop_entry(g_is_pos))
+__CPROVER_decreases(g_is_n - g_is_pos)'''},
+         contract=r'''
+__CPROVER_requires(g_is_n <= BUF_CAP && __CPROVER_r_ok(g_is_p, g_is_n) && g_is_pos <= g_is_n && g_line >= 1 && g_line <= 1000000 && g_ps_calls == 0 && g_pn_calls == 0)
+__CPROVER_assigns(g_is_pos, g_line, g_chk0, g_s0off, g_ps_calls, g_pn_calls, g_ps_pos, g_pn_pos)
+/* what a token is decided by: the last byte consumed for the six structural characters; the literals true / false / null spelled in full; a string or a number
+   only through parse_string / parse_number started AT the deciding byte; everything else is an error or the end of input */
+__CPROVER_ensures(g_is_pos <= g_is_n && g_is_pos >= __CPROVER_old(g_is_pos))
+__CPROVER_ensures((__CPROVER_return_value == '[' || __CPROVER_return_value == '{' || __CPROVER_return_value == ':' || __CPROVER_return_value == ',' || __CPROVER_return_value == '}' || __CPROVER_return_value == ']') ==>
+                  (g_is_pos >= 1 && (unsigned char)g_is_p[g_is_pos - 1] == __CPROVER_return_value && g_ps_calls == 0 && g_pn_calls == 0))
+__CPROVER_ensures(__CPROVER_return_value == tock_true ==> (g_is_pos >= 4 && g_is_p[g_is_pos - 4] == 't' && (g_k2 < 3 ==> g_is_p[g_is_pos - 3 + g_k2] == "rue"[g_k2])))
+__CPROVER_ensures(__CPROVER_return_value == tock_null ==> (g_is_pos >= 4 && g_is_p[g_is_pos - 4] == 'n' && (g_k2 < 3 ==> g_is_p[g_is_pos - 3 + g_k2] == "ull"[g_k2])))
+__CPROVER_ensures(__CPROVER_return_value == tock_false ==> (g_is_pos >= 5 && g_is_p[g_is_pos - 5] == 'f' && (g_k2 < 4 ==> g_is_p[g_is_pos - 4 + g_k2] == "alse"[g_k2])))
+__CPROVER_ensures(__CPROVER_return_value == tock_str ==> (g_ps_calls == 1 && g_ps_res && g_pn_calls == 0 && g_is_p[g_ps_pos] == '"'))
+__CPROVER_ensures(__CPROVER_return_value == tock_number ==> (g_pn_calls == 1 && g_pn_res && g_ps_calls == 0 && (g_is_p[g_pn_pos] == '-' || (g_is_p[g_pn_pos] >= '0' && g_is_p[g_pn_pos] <= '9'))))
+__CPROVER_ensures(__CPROVER_return_value == tock_eof ==> g_is_pos == g_is_n)
+/* nothing else can come out */
+__CPROVER_ensures(__CPROVER_return_value == '[' || __CPROVER_return_value == '{' || __CPROVER_return_value == ':' || __CPROVER_return_value == ',' || __CPROVER_return_value == '}' || __CPROVER_return_value == ']' ||
+                  (__CPROVER_return_value >= tock_eof && __CPROVER_return_value <= tock_null))
+'''),
 ]
 
 jobs = [
@@ -93,6 +167,18 @@ jobs = [
     SYM_BUF(char, in, n, BUF_CAP); size_t pos; __CPROVER_assume(pos <= n); g_is_p = in; g_is_n = n; g_is_pos = pos; bool vr; g_validate_result = vr;
     g_bad_raw = 0; g_bad_scalar = 0; g_validated = 0; g_str_cleared = 0; g_str_len = 0;
     json_parse_string(); VERIF_REACH;'''),
+    dict(name='json_check', props=P, enforce='json_check', harness=r'''
+    SYM_BUF(char, b, n, BUF_CAP); g_is_p = b; g_is_n = n; size_t pos, k2; __CPROVER_assume(pos <= n); g_is_pos = pos; g_k2 = k2;
+
+    char lit[5]; json_check(lit); VERIF_REACH;'''),
+    dict(name='json_read_4_digits', props=P, enforce='json_read_4_digits', pre_unwind=5, harness=r'''
+    SYM_BUF(char, b, n, BUF_CAP); g_is_p = b; g_is_n = n; size_t pos, k2; __CPROVER_assume(pos <= n); g_is_pos = pos; g_k2 = k2;
+
+    uint16_t x; json_read_4_digits(&x); VERIF_REACH;'''),
+    dict(name='json_next', props=P, enforce='json_next', replace=['json_check'], harness=r'''
+    SYM_BUF(char, b, n, BUF_CAP); g_is_p = b; g_is_n = n; size_t pos, k2; __CPROVER_assume(pos <= n); g_is_pos = pos; g_k2 = k2;
+
+    int ln, r1, r2; g_line = ln; g_ps_calls = 0; g_pn_calls = 0; g_ps_res = r1 != 0; g_pn_res = r2 != 0; json_next(); VERIF_REACH;'''),
 ]
 
 UNIT = dict(
